@@ -210,11 +210,29 @@ def check_map_node(ctx, i):
     victim = rng.choice(consumers) if consumers else None
     sub = {"k": "sub", "name": "inner", "prog": spec, "map": {"over": list(over), "mode": mode, "err": err}}
     # renamed mapping node
-    if rng.random() < 0.5:
-        ren_in = {over[0]: over[0] + "_x"}
+    r_ = rng.random()
+    ren_in = None
+    all_in = [e for _, e in ref.node_inputs(sub)]
+    others_ = [e for e in all_in if e != over[0]]
+    if r_ < 0.25 and others_:
+        # ONE with_inputs() call on the MAPPING node in which a new name equals another old name of the same call:
+        # a swap of the mapped input with another input, or a shift (mapped -> other's name, other -> fresh name),
+        # written with the mapped name first; renames of one call are simultaneous
+        o_ = rng.choice(others_)
+        ren_in = {over[0]: o_, o_: over[0]} if rng.random() < 0.5 else {over[0]: o_, o_: o_ + "_t"}
         sub["rename_in"] = [ren_in]
+        sub["map"]["at"] = 0
         sub["map"]["over"] = [ren_in.get(p, p) for p in over]
         inputs = {ren_in.get(k, k): v for k, v in inputs.items()}
+        ctx.obs["rename_after_map_over_swaps"] += 1
+    elif r_ < 0.5:
+        ren_in = {over[0]: over[0] + "_x"}
+        sub["rename_in"] = [ren_in]
+        if rng.random() < 0.5:
+            sub["map"]["at"] = 0  # renamed after map_over
+        sub["map"]["over"] = [ren_in.get(p, p) for p in over]
+        inputs = {ren_in.get(k, k): v for k, v in inputs.items()}
+    if ren_in is not None:
         outs = ref.sub_outputs(spec)
         if outs:
             o0 = rng.choice(outs)
